@@ -120,39 +120,40 @@ Proof.
 Qed.
 
 (* ---- a clear that removes every matching key *)
-Lemma Comp_clear_all bk kl d cur tch p limit zl cur' tch' lp al : Comp bk kl d cur tch ->
-  (limit = None \/
-   exists n, limit = Some n /\
-     (kl = true \/ N.of_nat (length (go_S_of (cbase bk kl) d p)) < n)) ->
-  (zl < 0 \/ Z.of_nat (length (go_S_of (cbase bk kl) d p)) < zl)%Z ->
-  spec_clear cur bk tch p limit = (cur', tch', lp, al) ->
-  let del := rev (cp_loop p (om_keys (ups d))
-                          (keys_to_clear (ups d) (matching_keys p (cbase bk kl))) zl []) in
-  Comp bk kl (fold_left sd_delete del d) cur' tch'.
+
+Definition untouched_matching (bk : omap val) (tch : kset) (p : key) : list key :=
+  filter (fun k => negb (ks_mem k tch)) (matching_keys p bk).
+
+Lemma untouched_killed bk d cur tch p : Comp bk true d cur tch -> untouched_matching bk tch p = [].
 Proof.
-  intros C BigS BigG E. pose proof (Comp_wf_cur _ _ _ _ _ C) as Wc. pose proof C as [W S Wt V TT].
+  intros [W S Wt V TT]. unfold untouched_matching. apply filter_none. intros k I.
+  apply kmem_in in I. rewrite kmem_matching in I by exact W.
+  apply andb_prop in I as [_ I]. rewrite (TT k (or_introl I)). rewrite I. cbn. now rewrite orb_true_r.
+Qed.
+
+Lemma untouched_le bk d cur tch p : Comp bk false d cur tch ->
+  (length (untouched_matching bk tch p) <= length (go_S_of bk d p))%nat.
+Proof.
+  intros [W S Wt V TT]. unfold untouched_matching, go_S_of. apply filter_length_le.
+  intros k I T. apply kmem_in in I. rewrite kmem_matching in I by exact W.
+  apply andb_prop in I as [_ I]. rewrite (TT k (or_introl I)) in T. cbn in T.
+  rewrite orb_false_r in T. unfold tg in T. apply negb_true_iff in T.
+  apply orb_false_iff in T as [T _]. now rewrite T.
+Qed.
+
+Lemma Comp_clear_gen bk kl d cur tch p limit zl ks cur' tch' lp al : Comp bk kl d cur tch ->
+  (limit = None \/
+   exists n, limit = Some n /\ N.of_nat (length (untouched_matching bk tch p)) <= n) ->
+  (forall k, has_prefix p k = true -> kmem k ks = om_mem k (ups d) || om_mem k (cbase bk kl)) ->
+  (zl < 0 \/ Z.of_nat (cnt p (om_keys (ups d)) ks) < zl)%Z ->
+  spec_clear cur bk tch p limit = (cur', tch', lp, al) ->
+  Comp bk kl (fold_left sd_delete (rev (cp_loop p (om_keys (ups d)) ks zl [])) d) cur' tch'.
+Proof.
+  intros C BigS HK BigG E. pose proof (Comp_wf_cur _ _ _ _ _ C) as Wc. pose proof C as [W S Wt V TT].
   assert (Wb : wf (cbase bk kl)) by now apply wf_cbase.
-  destruct (spec_clear_all cur bk tch p Wc W Wt (Comp_I2 _ _ _ _ _ C) limit cur' tch' lp al)
-    as (E1 & E2 & E3); [|exact E|].
-  { destruct BigS as [->|(n & -> & Hn)]; [now left | right]. exists n. split; [reflexivity|].
-    destruct Hn as [->|Hn].
-    - (* deleted child: every committed key is touched *)
-      replace (filter (fun k => negb (ks_mem k tch)) (matching_keys p bk)) with (@nil key); [cbn; lia|].
-      symmetry. apply filter_none. intros k I. apply kmem_in in I. rewrite kmem_matching in I by exact W.
-      apply andb_prop in I as [_ I]. rewrite (TT k (or_introl I)). rewrite I. cbn. now rewrite orb_true_r.
-    - destruct kl; [cbn in Hn |].
-      + replace (filter (fun k => negb (ks_mem k tch)) (matching_keys p bk)) with (@nil key); [cbn; lia|].
-        symmetry. apply filter_none. intros k I. apply kmem_in in I. rewrite kmem_matching in I by exact W.
-        apply andb_prop in I as [_ I]. rewrite (TT k (or_introl I)). rewrite I. cbn. now rewrite orb_true_r.
-      + cbn [cbase] in Hn. unfold go_S_of in Hn.
-        assert (L : (length (filter (fun k => negb (ks_mem k tch)) (matching_keys p bk)) <=
-                     length (filter (fun k => negb (om_mem k (ups d))) (matching_keys p bk)))%nat).
-        { apply filter_length_le. intros k I T. apply kmem_in in I. rewrite kmem_matching in I by exact W.
-          apply andb_prop in I as [_ I]. rewrite (TT k (or_introl I)) in T. cbn in T.
-          rewrite orb_false_r in T. unfold tg in T. apply negb_true_iff in T.
-          apply orb_false_iff in T as [T _]. now rewrite T. }
-        lia. }
-  destruct (go_clear_all (cbase bk kl) d p Wb S zl BigG) as (G1 & G2). cbn zeta in *.
+  destruct (spec_clear_all cur bk tch p Wc W Wt (Comp_I2 _ _ _ _ _ C) limit cur' tch' lp al BigS E)
+    as (E1 & E2 & E3).
+  destruct (go_clear_all_gen (cbase bk kl) d p ks zl Wb S HK BigG) as (G1 & G2). cbn zeta in *.
   split; try assumption.
   - now apply sd_wf_delete_list.
   - rewrite E1, G1, V. reflexivity.
@@ -165,4 +166,100 @@ Proof.
     + rewrite om_mem_nil, andb_false_r, orb_false_r.
       now destruct (tg d k), (om_mem k bk), (has_prefix p k).
     + now rewrite !orb_false_r.
+Qed.
+
+(* the key list of clearPrefix *)
+Lemma keys_to_clear_mem (m : omap val) d p k : wf m -> sd_wf d -> has_prefix p k = true ->
+  kmem k (keys_to_clear (ups d) (matching_keys p m)) = om_mem k (ups d) || om_mem k m.
+Proof.
+  intros W S P. unfold keys_to_clear. rewrite kmem_kmerge, kmem_keys by apply S.
+  rewrite kmem_filter by apply keqb_congr. rewrite kmem_matching by exact W. rewrite P. cbn.
+  now destruct (om_mem k (ups d)).
+Qed.
+
+Lemma keys_to_clear_cnt (m : omap val) d p : sd_wf d ->
+  cnt p (om_keys (ups d)) (keys_to_clear (ups d) (matching_keys p m)) = length (go_S_of m d p).
+Proof.
+  intros S. unfold cnt, keys_to_clear. rewrite kmerge_filter_length.
+  rewrite filter_none.
+  - cbn. unfold go_S_of. f_equal. apply filter_all. intros k I. apply filter_In in I as [I N].
+    unfold matching_keys in I. apply filter_In in I as [_ P]. rewrite P. cbn.
+    rewrite kmem_keys by apply S. exact N.
+  - intros k I. apply kmem_in in I. rewrite I. now rewrite andb_false_r.
+Qed.
+
+(* the key list of deleteChildLimit: committed keys and upserted keys, with duplicates *)
+Lemma kill_keys_mem (m : omap val) d k : wf m -> sd_wf d ->
+  kmem k (kmerge (om_keys m) (om_keys (ups d))) = om_mem k (ups d) || om_mem k m.
+Proof. intros W S. rewrite kmem_kmerge, !kmem_keys by (try apply S; exact W). apply orb_comm. Qed.
+
+Lemma kill_keys_cnt (m : omap val) d : wf m -> sd_wf d ->
+  cnt [] (om_keys (ups d)) (kmerge (om_keys m) (om_keys (ups d))) = length (go_S_of m d []).
+Proof.
+  intros W S. unfold cnt. rewrite kmerge_filter_length.
+  rewrite (filter_none _ (om_keys (ups d))).
+  - rewrite Nat.add_0_r. unfold go_S_of, matching_keys.
+    rewrite (filter_all (has_prefix []) (om_keys m)) by (intros; apply has_prefix_nil).
+    f_equal. apply filter_ext. intro k. rewrite has_prefix_nil. cbn. now rewrite kmem_keys by apply S.
+  - intros k I. apply kmem_in in I. rewrite I. now rewrite andb_false_r.
+Qed.
+
+(* ---- a limited clear in a range the transaction has not touched (child not deleted) *)
+Lemma Comp_clear_first bk d cur tch p n ks cur' tch' lp al : Comp bk false d cur tch ->
+  (forall k, has_prefix p k = true -> om_mem k (ups d) = false) ->
+  (forall k, In k (matching_keys p bk) -> ks_mem k (dels d) = false) ->
+  rev (cp_loop p (om_keys (ups d)) ks (Z.of_N n) []) = firstn (N.to_nat n) (matching_keys p bk) ->
+  spec_clear cur bk tch p (Some n) = (cur', tch', lp, al) ->
+  Comp bk false (fold_left sd_delete (rev (cp_loop p (om_keys (ups d)) ks (Z.of_N n) [])) d) cur' tch'.
+Proof.
+  intros C A1 A2 GD E. pose proof (Comp_wf_cur _ _ _ _ _ C) as Wc. pose proof C as [W S Wt V TT].
+  cbn [cbase] in V.
+  destruct (spec_clear_first cur bk tch p Wc W Wt (Comp_I2 _ _ _ _ _ C) n cur' tch' lp al) as (E1 & E2 & E3);
+    [|exact E|].
+  { intros k P T.
+    assert (Mb : om_mem k bk = false).
+    { destruct (om_mem k bk) eqn:Mb; [|reflexivity].
+      rewrite (TT k (or_introl Mb)) in T. cbn in T. rewrite orb_false_r in T. unfold tg in T.
+      rewrite (A1 k P) in T. cbn in T.
+      assert (I : In k (matching_keys p bk)) by (apply kmem_in; rewrite kmem_matching by exact W; now rewrite P, Mb).
+      apply A2 in I. congruence. }
+    split; [|exact Mb].
+    destruct (om_mem k cur) eqn:Mc; [|reflexivity].
+    pose proof Mc as Mc'. rewrite V, mview_mem in Mc' by assumption.
+    rewrite (A1 k P), Mb in Mc'. cbn in Mc'. now rewrite andb_false_r in Mc'. }
+  cbn zeta in *. rewrite GD. set (del := firstn (N.to_nat n) (matching_keys p bk)) in *.
+  split; try assumption.
+  - now apply sd_wf_delete_list.
+  - rewrite E1, V. symmetry. now apply mview_delete_list.
+  - intros k Rel. rewrite E3. rewrite tg_delete_list by exact S. cbn [andb]. rewrite orb_false_r.
+    assert (Rel' : om_mem k bk = true \/ om_mem k cur = true).
+    { destruct Rel as [Rel|Rel]; [now left | right]. rewrite E1 in Rel.
+      unfold om_mem in *. rewrite om_get_del_list in Rel by exact Wc.
+      now destruct (kmem k del). }
+    rewrite (TT k Rel'). cbn. now rewrite orb_false_r.
+Qed.
+
+(* ---- the spec removes every matching key, the Go code does nothing: nothing matches *)
+Lemma Comp_clear_noop bk d cur tch p limit cur' tch' lp al : Comp bk true d cur tch ->
+  (forall k, has_prefix p k = true -> om_mem k (ups d) = false) ->
+  spec_clear cur bk tch p limit = (cur', tch', lp, al) ->
+  Comp bk true d cur' tch'.
+Proof.
+  intros C A E. pose proof (Comp_wf_cur _ _ _ _ _ C) as Wc. pose proof C as [W S Wt V TT].
+  destruct (spec_clear_all cur bk tch p Wc W Wt (Comp_I2 _ _ _ _ _ C) limit cur' tch' lp al) as (E1 & E2 & E3);
+    [|exact E|].
+  { destruct limit as [n|]; [right | now left]. exists n. split; [reflexivity|].
+    fold (untouched_matching bk tch p). rewrite (untouched_killed bk d cur tch p C). cbn. lia. }
+  assert (NM : forall k, has_prefix p k = true -> om_mem k cur = false).
+  { intros k P. rewrite V, mview_mem by (try exact S; apply wf_nil). cbn [cbase].
+    rewrite (A k P), om_mem_nil. now rewrite andb_false_r. }
+  assert (EC : cur' = cur).
+  { rewrite E1. apply om_ext; [now apply wf_filter | exact Wc |]. intro k.
+    rewrite om_get_filter by exact Wc. destruct (has_prefix p k) eqn:P; cbn; [|reflexivity].
+    specialize (NM k P). unfold om_mem in NM. now destruct (om_get k cur). }
+  split; try assumption.
+  - now rewrite EC.
+  - intros k Rel. rewrite E3. rewrite EC in Rel. rewrite (TT k Rel).
+    destruct (has_prefix p k) eqn:P; cbn [andb]; [|now rewrite orb_false_r].
+    destruct (om_mem k bk) eqn:Mb; [now rewrite !orb_true_r | now rewrite orb_false_r].
 Qed.
